@@ -83,7 +83,7 @@ of `Atom`), bit-strings as the decoder produces them, map keys float-free -/
 def WFe : Term → Bool
   | .atom n => validUtf8 n
   | .int _ => true
-  | .float b => finiteF b
+  | .float b => finiteBits b
   | .pid p => validUtf8 p.node
   | .port n _ _ _ => validUtf8 n
   | .ref n _ _ _ => validUtf8 n
